@@ -860,6 +860,17 @@ def cli_policy_sources(coll):
                                  "yaml-merge with [defaults] anchors = %s in the --config file does not do what --anchors=%s does" % (pol, pol),
                                  inp, observed={"exit": by_ini["code"], "out": by_ini["out"][:200], "err": by_ini["err"][-200:]},
                                  expected={"exit": by_cli["code"], "out": by_cli["out"][:200]})
+                # ... and the right-hand document may arrive on STDIN, named with "-" or just waiting there: the policy
+                # decides the same way (a refused merge is a refused run: same status, nothing printed)
+                for route, argv in (("stdin-dash", ["--anchors=" + pol, lf, "-"]), ("stdin-waiting", ["--anchors=" + pol, lf])):
+                    got = c16.run_cli("merge", argv, stdin_text=rt)
+                    coll.case(("cli-route", pi, pol, route, got["code"]))
+                    if (got["code"], got["out"]) != (by_cli["code"], by_cli["out"]):
+                        coll.witness("C10/policy-outcome-differs-when-the-right-document-comes-from-stdin/%s/%s" % (route, pol),
+                                     "yaml-merge --anchors=%s LHS with the right-hand document on STDIN (%s) does not end as LHS RHS does" % (pol, route),
+                                     dict(inp, check="cli-route", route=route),
+                                     observed={"exit": got["code"], "out": got["out"][:200], "err": got["err"][-200:]},
+                                     expected={"exit": by_cli["code"], "out": by_cli["out"][:200]})
                 for other in ANCHOR_POLICIES:
                     if other == pol:
                         continue
@@ -933,7 +944,7 @@ def replay(inp):
         container_anchor_cases(coll)
         ws = [w for w in coll.witnesses.values() if any(i.get("anchors") == inp.get("anchors") and i.get("lhs_yaml") == inp.get("lhs_yaml") for i in w["inputs"])]
         return ws[0] if ws else None
-    if inp.get("check") == "cli-policy-source":
+    if inp.get("check") in ("cli-policy-source", "cli-route"):
         coll = harness.Collector()
         cli_policy_sources(coll)
         ws = [w for w in coll.witnesses.values() if w["key"].endswith("/" + inp["anchors"]) or "outrank" in w["key"]]
